@@ -81,7 +81,7 @@ pub fn judge(rep: &mut Report, c: &Case) {
 
 pub fn explore(ctx: &Ctx, shard: usize, n: usize) -> Report {
     let (corpus, _) = harvest(&ctx.repo);
-    let mut rep = drive::cases(ctx, shard, n, RULE, 0x10, 30_000, 1_500_000, |r, rep, _| { let c = gen(r, &corpus); judge(rep, &c); });
+    let mut rep = drive::cases(ctx, shard, n, RULE, 0x10, 30_000, 5_000_000, |r, rep, _| { let c = gen(r, &corpus); judge(rep, &c); });
     // the shipped pipeline, every word, every split point between rule groups
     if let Some(sh) = proj::shipped_germanic(&ctx.repo) {
         let rules: Vec<String> = sh.groups.iter().flat_map(|g| g.rule.clone()).collect();
